@@ -292,3 +292,37 @@ def run(prog: Program, ctx: Ctx) -> None:  # noqa: PLR0912,PLR0915
     deleg = [c for c in calls_in(fbc.node) if any(isinstance(x, FunctionInfo) and x.qualname == mi.qualname for x, _k in cg.callees_of_call(fbc, c))]
     ctx.ob("R5", key(fbc, "delegates-to-member-walk"), len(deleg) == 1 and [unparse(a) for a in deleg[0].args] == fbc.params[:2],
            "find_breaking_changes walks (old, new) in that order", where(fbc))
+
+    # ------------------------------------------------------------------ R7 compatible additions are silent
+    ctx.rule("R7", "adding optional parameters in a way that leaves every existing call valid and bound to the same parameters (an optional keyword-only "
+                   "parameter anywhere among the keyword-only ones, an optional positional one after the last positional one, *args / **kwargs) "
+                   "reports nothing; every old-valid call shape is checked against CPython's binder")
+    from sa.rules.C10 import KINDS, Table, _breaking_call, _fmt, _sig  # shared abstract-signature machinery (C10 decides the breaking side)
+
+    tbl = Table(prog)
+    olds = [
+        (("a", "positional_or_keyword", None),),
+        (("a", "positional_only", None), ("b", "positional_or_keyword", "1")),
+        (("a", "positional_or_keyword", None), ("x", "keyword_only", "1")),
+        (("a", "positional_or_keyword", None), ("x", "keyword_only", None), ("y", "keyword_only", "1")),
+        (("a", "positional_or_keyword", None), ("r", "var_positional", None), ("x", "keyword_only", "1")),
+        (("x", "keyword_only", "1"), ("k", "var_keyword", None)),
+    ]
+    n7 = 0
+    order = {k: i for i, k in enumerate(KINDS)}
+    for old in olds:
+        for kind, default in (("keyword_only", "0"), ("positional_or_keyword", "0"), ("var_positional", None), ("var_keyword", None)):
+            for pos in range(len(old) + 1):
+                new = (*old[:pos], ("new", kind, default), *old[pos:])
+                if _sig(new) is None:
+                    continue
+                # "compatible": positional parameters keep their index, and CPython binds every old-valid call shape
+                if any(k in ("positional_only", "positional_or_keyword") for _n, k, _d in old[pos:]) and kind in ("positional_only", "positional_or_keyword"):
+                    continue
+                if _breaking_call(old, new) is not None:
+                    continue
+                ys = [y[0] for y in tbl.yields(old, new)]
+                n7 += 1
+                ctx.ob("R7", f"compatible|{_fmt(old)} -> {_fmt(new)}", not ys,
+                       f"{_fmt(old)} -> {_fmt(new)} keeps every existing call valid" + (", nothing reported" if not ys else f", yet {ys} is reported"), where(tbl.fn))
+    ctx.expect_min("R7", n7, 20)
